@@ -153,6 +153,100 @@ fn c07_string_cells_keep_text() {
     std::mem::forget(v);
 }
 
+use snel_db::engine::core::column::column_block_snapshot::ColumnBlockSnapshot;
+use snel_db::engine::core::column::format::PhysicalType;
+use snel_db::engine::core::read::cache::DecompressedBlock;
+use snel_db::engine::core::ColumnValues;
+use std::sync::Arc;
+
+fn typed_block(phys: u8, bits: u64, is_null: bool) -> ColumnBlockSnapshot {
+    let mut bytes = Vec::with_capacity(9);
+    bytes.extend_from_slice(&bits.to_le_bytes());
+    bytes.push(if is_null { 1 } else { 0 });
+    let block = Arc::new(DecompressedBlock::from_bytes(bytes));
+    let nulls = Some((8usize, 1usize));
+    match phys {
+        0 => ColumnBlockSnapshot::new(PhysicalType::I64, ColumnValues::new_typed_i64(block, 0, 1, nulls)),
+        1 => ColumnBlockSnapshot::new(PhysicalType::U64, ColumnValues::new_typed_u64(block, 0, 1, nulls)),
+        _ => ColumnBlockSnapshot::new(PhysicalType::F64, ColumnValues::new_typed_f64(block, 0, 1, nulls)),
+    }
+}
+
+//@ id: A-3i
+//@ tier: quick
+//@ cap: 600
+//@ desc: compaction's reader (ColumnBlockSnapshot::into_scalar_values) maps a typed i64 / f64 cell to the value the memory tier holds (Int64(n) / Float64 with the same bits), a null cell to Null
+//@ functions: ColumnBlockSnapshot::into_scalar_values, values_to_scalar, ColumnValues::get_i64_at, get_f64_at
+//@ bounds: one row; any i64 / any finite f64; null flag symbolic
+//@ assumes: finite floats (STORE accepts no others)
+//@ stubs: none
+#[kani::proof]
+#[kani::unwind(6)]
+fn c07_snapshot_scalar_i64_f64() {
+    let bits: u64 = kani::any();
+    let is_null: bool = kani::any();
+    let float: bool = kani::any();
+    if float {
+        let f = f64::from_bits(bits);
+        kani::assume(f.is_finite());
+        let out = typed_block(2, bits, is_null).into_scalar_values();
+        assert!(out.len() == 1);
+        if is_null {
+            assert!(matches!(out[0], ScalarValue::Null));
+        } else {
+            assert!(matches!(out[0], ScalarValue::Float64(g) if g.to_bits() == bits));
+        }
+        std::mem::forget(out);
+    } else {
+        let out = typed_block(0, bits, is_null).into_scalar_values();
+        assert!(out.len() == 1);
+        if is_null {
+            assert!(matches!(out[0], ScalarValue::Null));
+        } else {
+            assert!(matches!(out[0], ScalarValue::Int64(m) if m == bits as i64));
+        }
+        std::mem::forget(out);
+    }
+    kani::cover!(is_null, "null cell");
+    kani::cover!(!float && (bits as i64) < 0, "negative integer");
+}
+
+//@ id: A-3u
+//@ tier: quick
+//@ cap: 900
+//@ desc: compaction's reader maps a typed u64 cell like the memory tier and the query reader do: Int64(u) up to i64::MAX, the decimal string above (never a wrapped negative number)
+//@ functions: ColumnBlockSnapshot::into_scalar_values, values_to_scalar, ColumnValues::get_u64_at
+//@ bounds: one row; every u64 <= i64::MAX symbolically, u64::MAX and 2^63 as concrete representatives above (decimal formatting kept concrete); unwind 24
+//@ assumes: none
+//@ stubs: none
+#[kani::proof]
+#[kani::unwind(24)]
+fn c07_snapshot_scalar_u64() {
+    let which: u8 = kani::any();
+    kani::assume(which < 3);
+    match which {
+        0 => {
+            let u: u64 = kani::any();
+            kani::assume(u <= i64::MAX as u64);
+            let out = typed_block(1, u, false).into_scalar_values();
+            assert!(out.len() == 1 && matches!(out[0], ScalarValue::Int64(m) if m as u64 == u));
+            std::mem::forget(out);
+        }
+        1 => {
+            let out = typed_block(1, u64::MAX, false).into_scalar_values();
+            assert!(out.len() == 1 && matches!(&out[0], ScalarValue::Utf8(s) if s.as_bytes() == b"18446744073709551615"));
+            std::mem::forget(out);
+        }
+        _ => {
+            let out = typed_block(1, 1u64 << 63, false).into_scalar_values();
+            assert!(out.len() == 1 && matches!(&out[0], ScalarValue::Utf8(s) if s.as_bytes() == b"9223372036854775808"));
+            std::mem::forget(out);
+        }
+    }
+    kani::cover!(which == 1, "u64::MAX");
+    kani::cover!(which == 0, "small value");
+}
+
 //@ id: A-4w
 //@ tier: quick
 //@ cap: 600
